@@ -450,6 +450,9 @@ def run(chk):
     chk.cov["openmp_quick_s"] = round(time.time() - t_omp, 1)
     if violation is None and omp_issue:
         violation = omp_issue
+    fuse_issue, _ = fusion_check(chk, entries)
+    if violation is None and fuse_issue:
+        violation = fuse_issue
     if chk.tier == "thorough":
         omp_issue = omp_check(chk, entries, schedules=["none", "static", "guided,8"])
         oracle_check(chk, entries)
@@ -675,6 +678,135 @@ def oracle_check(chk, entries):
     chk.cov["gfortran_oracle"] = {"cases": len(cases), "disagreements": bad}
 
 
+# ------------------------------------------------------------------------------------------ loop fusion family
+def run_program(prog, env):
+    env = copy_env(env)
+    for item in prog:
+        if item[0] == "init":
+            exec_stmt(item[1], env, 0)
+        else:
+            lo = item[1][1] if item[1][0] == "const" else 0
+            for df in range(lo, bound_value(item[2]) + 1):
+                for st in item[3]:
+                    exec_stmt(st, env, df)
+    return env
+
+
+def prog_sx(prog):
+    out = []
+    for item in prog:
+        if item[0] == "init":
+            out.append(["init", item[1]])
+        else:
+            out.append(["loop", item[1][1] if item[1][0] == "const" else 0, bound_value(item[2]), list(item[3])])
+    return out
+
+
+def fusion_env(rng, kind):
+    from props import c20_fusion as F
+    return make_env(rng, len(F.SCALARS), kind)     # 4 field rows (the 4th is unused), 4 scalars
+
+
+def fusion_expected(calls, by_name, env):
+    from props import c20_fusion as F
+    for name, args in calls:
+        env = apply_doc(F.rename_doc(by_name[name]["doc"], args), NDOF, env)
+    return env
+
+
+def fusion_evaluate(rec, by_name, env):
+    """None, or the first difference between the fused generated code and the documented built-in sequence."""
+    if not isinstance(rec["program"], list):
+        return {"where": "generated fused code", "code_value": rec["program"], "documented_value": "-"}
+    try:
+        want = fusion_expected(rec["calls"], by_name, env)
+        got = run_program(rec["program"], env)
+    except Undefined:
+        return None
+    return first_difference(got, want)
+
+
+def fusion_payload(rec, env, diff, case_names):
+    from props import c20_fusion as F
+    prog = rec["program"] if isinstance(rec["program"], list) else []
+    return {"kind": "failing-input", "fusion": {"calls": [[n, a] for n, a in rec["calls"]], "history": rec["history"],
+                                                "same_space": rec["same_space"]},
+            "invoke": "call invoke(" + F.invoke_text(rec["calls"], case_names) + ")",
+            "transformations": [f"LFRicLoopFuseTrans().apply(schedule[{p}], schedule[{p + 1}], {{'same_space': True}})"
+                                for p in rec["history"]],
+            "variables": {"fields": F.FIELDS, "scalars": F.SCALARS},
+            "env": {"flds": [[fr(v) for v in r] for r in env["flds"]], "scals": [fr(v) for v in env["scals"]],
+                    "rnd": [fr(v) for v in env["rnd"]]},
+            "generated": [(["DO df"] + it[4] + ["END DO"]) if it[0] == "loop" else X.pretty_stmt(it[1]) for it in prog],
+            "observed": diff, "expected": "each built-in applied to all DoFs, in invoke order, by its documented formula"}
+
+
+def fusion_scenarios(chk, by_name):
+    from props import c20_fusion as F
+    metas = {n: by_name[n]["meta"] for n in F.POOL if n in by_name}
+    scen = [c for c in F.CORE if all(n in by_name for n, _ in c)]
+    for c in load_corpus():
+        if "fusion" in c:
+            calls = [(n, a) for n, a in c["fusion"]["calls"]]
+            if calls not in scen and all(n in by_name for n, _ in calls):
+                scen.append(calls)
+    for _ in range(40 if chk.tier == "thorough" else 8):
+        scen.append(F.random_scenario(chk.rng, metas))
+    return scen
+
+
+def fusion_check(chk, entries):
+    from props import c20_fusion as F
+    t0 = time.time()
+    by_name = {e["name"]: e for e in entries}
+    case_names = {e["name"]: e["case_name"] for e in entries}
+    scen = fusion_scenarios(chk, by_name)
+    recs = F.fused_programs(scen, case_names, every_history=(chk.tier == "thorough"))
+    accepted = [r for r in recs if r["accepted"]]
+    stats = {"scenarios": len(scen), "histories_tried": len(recs), "accepted": len(accepted),
+             "refused": len(recs) - len(accepted), "holds": 0, "known_class": 0, "differs": 0}
+    violation, known_hit, lines, cases = None, False, [], []
+    envs = [fusion_env(chk.rng, k) for k in ("int", "int", "rat", "edge")]
+    corpus_envs = {}
+    for c in load_corpus():
+        if "fusion" in c:
+            corpus_envs.setdefault(repr([(n, a) for n, a in c["fusion"]["calls"]]), []).append(
+                {"flds": ([[Fraction(v) for v in r] for r in c["env"]["flds"]] + [[Fraction(0)] * NDOF] * 4)[:len(F.SCALARS)],
+                 "scals": [Fraction(v) for v in c["env"]["scals"]], "rnd": [Fraction(v) for v in c["env"]["rnd"]]})
+    for r in accepted:
+        for env in corpus_envs.get(repr(r["calls"]), []) + envs:
+            diff = fusion_evaluate(r, by_name, env)
+            if isinstance(r["program"], list):
+                cases.append((r, env))
+                lines.append(sx(["prog", prog_sx(r["program"]), len(F.SCALARS), NDOF, env_sx(env)]))
+            if diff is None:
+                stats["holds"] += 1
+                continue
+            before, after = F.scalar_dependences(r["program"]) if isinstance(r["program"], list) else (0, 0)
+            if before > 0 and after == 0:
+                stats["known_class"] += 1      # finding C20-fusion-reader-before-reduction
+                known_hit = True
+                continue
+            stats["differs"] += 1
+            if violation is None:
+                violation = fusion_payload(r, env, diff, case_names)
+    outs = driver("C20", lines)
+    for (r, env), m in zip(cases, outs):
+        try:
+            t = show_env(run_program(r["program"], env))
+        except Undefined:
+            continue
+        agreed = (t == m)
+        chk.case({"fused": F.invoke_text(r["calls"], case_names), "history": r["history"], "result": m},
+                 nontrivial=len(r["history"]) > 0, agreed=agreed)
+        if not agreed:
+            chk.correspondence_broken("Python twin of a fused invoke differs from the Lean model C20.runProg",
+                                      {"calls": r["calls"], "history": r["history"]}, m, t)
+    stats["seconds"] = round(time.time() - t0, 1)
+    chk.cov["loop_fusion"] = stats
+    return violation, known_hit
+
+
 # ------------------------------------------------------------------------------------------ known-finding scenarios
 _HDR = ("program c20_scn\n use constants_mod, only: r_def\n use field_mod, only: field_type\n implicit none\n"
         " type(field_type) :: f1, f2, f3\n real(r_def) :: asum, c\n")
@@ -763,6 +895,28 @@ def replay(payload, quiet=False):
         if not quiet:
             print(f"scenario {payload['scenario']}: {'STILL FAILING' if failing else 'no longer failing'} — {observed}")
         return 1 if failing else 0
+    if "fusion" in payload:
+        from props import c20_fusion as F
+        calls = [(n, a) for n, a in payload["fusion"]["calls"]]
+        names = tuple(sorted({n for n, _ in calls}))
+        entries = extract(names=names)
+        by_name = {e["name"]: e for e in entries}
+        case_names = {e["name"]: e["case_name"] for e in entries}
+        recs = F.fused_programs([calls], case_names, only={0: [payload["fusion"]["history"]]})
+        rec = recs[0]
+        if not rec["accepted"]:
+            if not quiet:
+                print("fusion history refused now:", rec.get("refusal"))
+            return 0
+        env = {"flds": ([[Fraction(v) for v in r] for r in payload["env"]["flds"]] + [[Fraction(0)] * NDOF] * 4)[:len(F.SCALARS)],
+               "scals": [Fraction(v) for v in payload["env"]["scals"]], "rnd": [Fraction(v) for v in payload["env"]["rnd"]]}
+        diff = fusion_evaluate(rec, by_name, env)
+        if not quiet:
+            print("invoke:   ", F.invoke_text(calls, case_names), "\nhistory:  ", payload["fusion"]["history"])
+            print("generated:", [it[4] if it[0] == "loop" else X.pretty_stmt(it[1]) for it in rec["program"]]
+                  if isinstance(rec["program"], list) else rec["program"])
+            print("observed: ", diff or "fused code and documented built-in sequence agree")
+        return 1 if diff else 0
     name = payload.get("builtin")
     if not name:
         if not quiet:
